@@ -1,7 +1,14 @@
-/- C20 line-protocol driver (core-only). Stub until the property's model lands. -/
+/- C20 line-protocol driver (core-only): dispatches to the GCS, bloom and partial-merkle-tree parts. -/
+import BV.C20.DriverGcs
+import BV.C20.DriverBloom
+import BV.C20.DriverPmt
 namespace BV.C20.Driver
 
 def handle : List String → String
-  | _ => "unimplemented"
+  | op :: rest =>
+    if op.startsWith "bloom" then DriverBloom.handle (op :: rest)
+    else if op.startsWith "pmt" then DriverPmt.handle (op :: rest)
+    else DriverGcs.handle (op :: rest)
+  | [] => "bad-op"
 
 end BV.C20.Driver
